@@ -296,7 +296,11 @@ def normal_jobs(r, n: int, prefix: str, max_boards: int = 3) -> List[tuple]:
     # the four shapes of a redoubled auction (by the bidder himself / by his partner,
     # directly over the double / after two passes), and a double after two passes
     for j, sc in enumerate([[0, 36, 35, 35, 37, 35, 35, 35], [0, 35, 35, 36, 37, 35, 35, 35],
-                            [0, 36, 37, 35, 35, 35], [0, 35, 35, 36, 35, 35, 37, 35, 35, 35]]):
+                            [0, 36, 37, 35, 35, 35], [0, 35, 35, 36, 35, 35, 37, 35, 35, 35],
+                            # the opener rebids his suit after partner's raise; a strain named
+                            # by both sides; a balancing double passed out
+                            [3, 35, 8, 35, 18, 35, 35, 35], [4, 9, 14, 35, 35, 35],
+                            [2, 35, 35, 36, 35, 35, 35]]):
         jobs.append((f'{prefix}rdbl{j}', {'boards': rand_boards(r, 2), 'seed': r.randrange(1 << 30),
                                           'styles': [{'script': sc}] * 4, 'vary': j % 2 == 0,
                                           'policy_spec': POLICIES[j % len(POLICIES)]}, 'normal', None))
@@ -662,6 +666,11 @@ def owners(clause: str, kind: str) -> set:
     for c in body.split(','):
         if c.startswith('complete-'):
             own |= {'C20', 'C09'} if kind == 'admission' else {'C09'}
+        if c.startswith('complete-decisions') and kind == 'normal':
+            # the session "completed" although an auction or a play was cut short
+            # (server and clients share the state machines): wrong log, wrong
+            # streams, wrong replicas
+            own |= {'C08', 'C10', 'C11'}
         if c.startswith('admission-stream') or c.startswith('admission-seated'):
             own |= {'C10'}
         if c.startswith('clients-complete') or c.startswith('client-stream') or c.startswith('replica-'):
